@@ -44,13 +44,17 @@ def work(item):
     # the constructor gets a *real* Layout ('flux_surface' ordering [0,3,1,2]).  Radius-dependent twist: the block of one rank
     # of a 2x2 process grid (r and v_parallel both start at an offset, local index != global index != 0 for some items);
     # no twist: a single process.
-    if twist_mode == 'radial':
+    if twist_mode in ('radial', 'const'):
         nr, nv, roff, voff, nprocs = 4, 4, 2, 1, (2, 2)
     else:
         nr, nv, roff, voff, nprocs = 2, 3, 0, 0, (1, 1)
     rg, vg = ridx + roff, vidx + voff            # global indices of the line advected by this item
     rvals = [Fr(1) + Fr(i, 2) for i in range(nr)]
     twists = [Fr(0) if twist_mode == 'zero' else TWISTS[(i - roff + 1) % 4] for i in range(nr)]
+    if twist_mode == 'const':
+        # the same non-zero iota on every flux surface: r*iota/R0 (hence b_z) still differs from surface to surface
+        rvals = [Fr(5, 12), Fr(3, 4), Fr(4, 3), Fr(15, 8)]
+        twists = list(rvals)
     vvals = [Fr(-1, 3)] * voff + [Fr(-2), Fr(1, 2), Fr(3)]
 
     def real_layout(eta):
@@ -59,10 +63,10 @@ def work(item):
         assert L.starts[0] <= rg < L.ends[0] and L.starts[1] <= vg < L.ends[1]
         return L, rg - int(L.starts[0]), vg - int(L.starts[1])
     dz = Fr(1, 2)
-    z0 = Fr(7, 2) if twist_mode == 'radial' else Fr(0)          # the z grid of the twisted variant does not start at 0
+    z0 = Fr(7, 2) if twist_mode in ('radial', 'const') else Fr(0)          # the z grid of the twisted variant does not start at 0
     qbreaks = [TWO_PI * Fr(i, nq) for i in range(nq + 1)]
     T = oracle_knots(qbreaks, tdeg, True, tpath)
-    bz = {Fr(0): Fr(1), Fr(3, 4): Fr(4, 5), Fr(5, 12): Fr(12, 13), Fr(8, 15): Fr(15, 17)}[twists[rg]]
+    bz = {Fr(0): Fr(1), Fr(3, 4): Fr(4, 5), Fr(5, 12): Fr(12, 13), Fr(8, 15): Fr(15, 17), Fr(4, 3): Fr(3, 5), Fr(15, 8): Fr(8, 17)}[twists[rg]]
     vel = vvals[vg]
     # dt range such that |displacement| <= cells * dz for the chosen (r, v)
     dtmax = Fr(cells) * dz / (abs(vel) * bz)
@@ -290,12 +294,14 @@ def main():
     quick = run.tier == 'quick'
     items = []
     if quick:
-        items += [(4, 7, 3, 'cu', 'zero', 0, 0, 2, None), (4, 7, 3, 'cu', 'radial', 1, 2, 2, None), (4, 7, 2, 'nu', 'radial', 0, 1, 1, None)]
+        items += [(4, 7, 3, 'cu', 'zero', 0, 0, 2, None), (4, 7, 3, 'cu', 'radial', 1, 2, 2, None), (4, 7, 2, 'nu', 'radial', 0, 1, 1, None),
+                  (4, 7, 3, 'cu', 'const', 1, 0, 1, None)]
     else:
         for tw in ('zero', 'radial'):
             for ridx in (0, 1):
                 for vidx in (0, 1, 2):
                     items.append((4, 7, 3, 'cu', tw, ridx, vidx, 3, None))
+        items += [(4, 7, 3, 'cu', 'const', 1, 2, 2, None), (4, 7, 2, 'nu', 'const', 0, 1, 2, None), (4, 7, 3, 'cu', 'const', 1, 1, 2, None)]
         items += [(6, 8, 3, 'nu', 'radial', 1, 0, 2, None), (5, 7, 1, 'nu', 'radial', 0, 2, 2, None), (4, 9, 2, 'nu', 'zero', 0, 1, 9, None)]
     # displacements of more than the whole z domain with non-zero twist (each complete turn adds iota*Lz/R0 to theta)
     extra = [(4, 7, 3, 'cu', 'radial', 1, 2, 9, None, (7, 8)), (4, 7, 3, 'cu', 'radial', 0, 0, 9, None, (-9, -8))]
